@@ -380,7 +380,13 @@ func drawRadius(s *core.Source, z maptile.Zoom) (float64, string) {
 	n := math.Exp2(float64(z))
 	var r float64
 	var class string
-	switch s.Pick([]int{3, 3, 2}, "size") {
+	switch s.Pick([]int{3, 3, 2, 1}, "size") {
+	case 3:
+		// far smaller than a tile (centimetres at zoom 0): still of positive length / area
+		r, class = math.Pow(10, -float64(3+s.Intn(7, "rexp"))), "micro"
+		if min := n * 1e-9; r < min {
+			r = min // keep the vertices distinct after the round trip through lon/lat (positive length and area)
+		}
 	case 0:
 		r, class = 0.02+float64(s.Intn(48, "r"))/100, "subtile"
 	case 1:
@@ -511,7 +517,7 @@ func drawShape(s *core.Source, z maptile.Zoom, areaOnly bool) *shape {
 		}
 	case 2:
 		sh.class = "polygon/" + size
-		thin := s.Chance(1, 5, "thin")
+		thin := s.Chance(1, 5, "thin") && size != "micro"
 		if thin {
 			sh.class = "thinpolygon/" + size
 		}
